@@ -164,3 +164,11 @@ func (i *Inst) Allocator() *libmem.Allocator {
 
 func (i *Inst) TASnap() *topologyaware.VerifSnap { return topologyaware.VerifSnapshot(i.Backend) }
 func (i *Inst) BlnSnap() *balloons.VerifSnap     { return balloons.VerifSnapshot(i.Backend) }
+
+// Hidden renders policy state that is not an assignment but steers later decisions.
+func (i *Inst) Hidden() string {
+	if i.Policy == PolTA {
+		return topologyaware.VerifHidden(i.Backend)
+	}
+	return balloons.VerifHidden(i.Backend)
+}
